@@ -10,7 +10,11 @@ NOT_APPLICABLE = {
 for k in ['C01','C02','C03','C04','C05','C06','C07','C10','C11','C12','C13','C14','C15','C16','C17','C18','C19','C20']:
     NOT_APPLICABLE.setdefault(k, UNDER)
 CHECKS = {
- 'C10': {
+ 'C17': {
+  'text': 'Verus proves on the real upgrade functions, for all database contents: (1) cosine_from_0_4_to_0_5: under the well-formedness of the old database, Ok implies that the write view is exactly the fold, over the old entries in key order, of the reference re-tagging written from the property statement (items copied byte for byte under kind Item; tree nodes with both children re-tagged; the metadata record with the metric renamed; one Updated mark per id of the old pending-updates bitmap; nothing else, the write database being cleared first); errors are heed errors or CannotDecodeKeyMode; no panic. (2) from_0_5_to_0_6: the write view gains a version record for exactly the indexes 0..=65535 that have metadata in the read view and nothing else changes.',
+  'note': 'LazyDecode::decode is assumed total (A3). That the result opens / satisfies C01 is C06/C01 on the resulting view.',
+  'technique': 'Verus postconditions + loop invariants on the extracted real functions',
+ }, 'C10': {
   'text': 'In every extracted build-path function (delete_items_in_file, insert_items_in_file, ImmutableLeafs::new, item_indices, reset_and_retrieve_updated_items, the single-bucket shortcut, clear_tree_nodes) each dependency call and each poll of the cancellation callback returns an arbitrary Ok/Err, so all fault sequences at all poll points are covered at once; Verus proves: Ok only with the full functional postcondition (never success over a half-done edit), Err(e) => e in {BuildCancelled, Heed, Io, DatabaseFull} (no MissingKey on a well-formed tree), and no panic on any path (unwrap, unreachable!, assert!, arithmetic overflow, division by zero are proof obligations).',
   'note': 'PARTIAL: build() and its loop drivers are not under contract (evidence lists them); abort/retry and resource release are LMDB/OS (not decided). Assumption A1 (used_tree_node) is documented, not alarmed on.',
   'technique': 'Verus postconditions with nondeterministic stand-in results on extracted real functions',
